@@ -1020,9 +1020,13 @@ def findings(ctx, model):
 
 
 def search(ctx, model, why):
-    """thorough tier: oracle (real operator vs independent numpy formula on random inputs) on a fresh sample of the grid"""
+    """thorough tier: oracle (real operator vs independent numpy formula on random inputs) on a fresh sample of the grid
+    and on randomly drawn configurations beyond the grid (continuous parameters, random index expressions, ...)"""
     common.setup_scico()
     warnings.simplefilter("ignore")
+    import jax
+
+    import linops_ref
     import opgrid
 
     oracle = make_oracle(rng_seed=ctx.seed + 99)
@@ -1033,6 +1037,23 @@ def search(ctx, model, why):
         ctx.count("search-oracle")
         if r is not None:
             return r
+    for k, (name, c) in enumerate(opgrid.random_configs(ctx.rng, 12)):
+        if classify(name, c) is not None and ctx.is_known(classify(name, c)):
+            continue
+        # floor() is a contract: skip geometries in which a projected edge is within 1e-7 of a bin edge
+        if name == "XRayTransform2D" and any(float(np.min(np.abs(linops_ref.xray2d_weights(c, a)[2] - np.round(linops_ref.xray2d_weights(c, a)[2])))) < 1e-7 for a in c["angles"]):
+            continue
+        if name == "XRayTransform3D":
+            le = linops_ref.xray3d_left_edges(c)
+            d1, d2 = np.abs(le - np.round(le)), np.abs(le + 0.5 - np.round(le + 0.5))
+            if np.any((d1 > 0) & (d1 < 1e-6)) or np.any((d2 > 0) & (d2 < 1e-6)):
+                continue
+        r = oracle({"class": name, "config": c})
+        ctx.count("search-random-config")
+        if r is not None:
+            return r
+        if k % 60 == 59:
+            jax.clear_caches()
     return None
 
 
